@@ -110,5 +110,50 @@ func fixedCases() []Case {
 		ops.Op{K: "cellpborder4", I: []int{0, 2, 2, 0, 6, 1, 8, 2, 10, 3, 12, 4}, S: []string{"dashed", "123456", "single", "654321", "double", "ABCDEF", "dotted", "FEDCBA"}, B: []bool{true, true, true, true}},
 		ops.Op{K: "margins", F: []float64{11, 22, 33, 44}})
 	all = append(all, c)
+	all = append(all, bigFixedCases()...)
+	return all
+}
+
+// bigFixedCases pin the size classes (big.go) whatever the seed: pictures at, just above and far above 8 MiB in every
+// container format and through every picture entry point, paragraphs/runs/cells with 64 Ki .. 4 Mi characters,
+// thousands of paragraphs, runs and rows, a table wider than 63 columns, more than a hundred pictures.
+func bigFixedCases() []Case {
+	var all []Case
+	const mi = 1 << 20
+	// 5. pictures: exactly 8 MiB, 8 MiB + 1, 9 MiB in a table cell, 16 MiB and a bit, 32 MiB + 1; text before, between and after
+	c := Case{Cycles: 2, File: true}
+	c.Ops = append(c.Ops, ops.Op{K: "para", S: []string{"before"}},
+		ops.Op{K: "bigimage", S: []string{"png", "exact.png", "alt", "title"}, I: []int{8 * mi, 11, 0, 1}, F: []float64{40, 30}},
+		ops.Op{K: "bigimage", S: []string{"jpeg", "plus1.jpg", "alt", "title"}, I: []int{8*mi + 1, 12, 1, 0}, F: []float64{0, 0}},
+		ops.Op{K: "para", S: []string{" between "}},
+		ops.Op{K: "bigimage", S: []string{"gif", "sixteen.gif", "", ""}, I: []int{16*mi + 4097, 15, 1, 3}, F: []float64{0, 0}},
+		ops.Op{K: "table", I: []int{2, 2, 6000}, Grid: [][]string{{"a", "b"}, {"c", "d"}}},
+		ops.Op{K: "bigcellimg", S: []string{"gif"}, I: []int{0, 1, 1, 9 * mi, 13, 1}, F: []float64{25}},
+		ops.Op{K: "bigimagefile", S: []string{"png", "huge.png", "", ""}, I: []int{32*mi + 1, 14, 1, 2}, F: []float64{60, 0}},
+		ops.Op{K: "image", Img: &gen.Img{Fmt: "png", W: 6, H: 6, Pat: 99, Name: "small.png"}, I: []int{0, 0, 0, 0}, F: []float64{0, 0}, S: []string{"", "", ""}},
+		ops.Op{K: "para", S: []string{"after"}})
+	all = append(all, c)
+	// 6. text: a paragraph of 1 Mi + 1 characters with multi-byte characters, a 4 Mi character run with tabs, newlines and
+	// markup characters added to a paragraph, 64 Ki characters in a table cell, and 32767/32768 character paragraphs
+	c = Case{Cycles: 2}
+	c.Ops = append(c.Ops, ops.Op{K: "para", S: []string{"head"}},
+		ops.Op{K: "bigtext", I: []int{mi + 1, 21, 1}},
+		ops.Op{K: "bigaddtext", I: []int{0, 4 * mi, 22, 2}, Fmt: &ops.Fmt{Italic: true, Size: 10}},
+		ops.Op{K: "table", I: []int{1, 2, 6000}, Grid: [][]string{{"a", "b"}}},
+		ops.Op{K: "bigcelltext", I: []int{0, 0, 1, 1 << 16, 23, 0}},
+		ops.Op{K: "bigtext", I: []int{32767, 24, 0}}, ops.Op{K: "bigtext", I: []int{32768, 25, 2}},
+		ops.Op{K: "para", S: []string{" tail "}})
+	all = append(all, c)
+	// 7. counts: 5000 paragraphs, 2000 runs in one paragraph, a table of 1025 rows, a table of 64 columns, 101 pictures
+	c = Case{Cycles: 2}
+	c.Ops = append(c.Ops, ops.Op{K: "para", S: []string{"many"}},
+		ops.Op{K: "manyruns", I: []int{0, 2000, 31}},
+		ops.Op{K: "manyparas", I: []int{5000, 32}},
+		ops.Op{K: "bigtable", I: []int{1025, 3, 9000}},
+		ops.Op{K: "bigtable", I: []int{2, 64, 9000}},
+		ops.Op{K: "mergeh", I: []int{1, 0, 60, 63}},
+		ops.Op{K: "manyimages", I: []int{101, 33}},
+		ops.Op{K: "margins", F: []float64{10, 10, 10, 10}})
+	all = append(all, c)
 	return all
 }
